@@ -219,6 +219,43 @@ func Run(sc Scenario, hook tnet.Hook) Result {
 	return Finish(sv, cl, tnet.Pump(sv, cl, tnet.Addr(1), hook))
 }
 
+// RunProbe is Run followed by a liveness probe of the same server: a second, honest client whose key
+// is listed and who accepts any server certificate performs a handshake.  Whatever the first
+// counterpart presented, the server must still serve (alive = "1"; "0" when it does not, "-" when
+// the probe says nothing: a server that does not hold its certified key, or whose policy callback
+// refuses everybody).
+func RunProbe(sc Scenario) (Result, string) {
+	sv, kemPub, cv := BuildServer(sc)
+	cl := BuildClient(sc, 1, kemPub)
+	if (sc.KeyListed || sc.Revoked) && cv != nil {
+		cv.AuthKeys.AddKey(cl.CertKey)
+	}
+	if sc.Revoked && cv != nil {
+		cv.AuthKeys.RemoveKey(cl.CertKey)
+	}
+	defer sv.Close()
+	defer cl.Close()
+	r := Finish(sv, cl, tnet.Pump(sv, cl, tnet.Addr(1), nil))
+	if sc.ServerAdv == "wrongkey" || (sc.ServerCB == "deny" && cv != nil) {
+		return r, "-"
+	}
+	sc2 := sc
+	sc2.ClientAdv, sc2.ClientSkip, sc2.ClientCB, sc2.NoName = "ok", true, "", true
+	cl2 := BuildClient(sc2, 2, kemPub)
+	defer cl2.Close()
+	if cv != nil {
+		cv.AuthKeys.AddKey(cl2.CertKey)
+	}
+	tnet.Pump(sv, cl2, tnet.Addr(2), nil)
+	if !(cl2.Finished() && cl2.HSErr == nil) {
+		return r, "0"
+	}
+	if _, err := sv.S.AcceptTimeout(5 * time.Second); err != nil {
+		return r, "0"
+	}
+	return r, "1"
+}
+
 // Finish observes the outcome of a pumped handshake.
 func Finish(sv *tnet.Srv, cl *tnet.Cli, all []tnet.Dgram) Result {
 	var r Result
